@@ -120,7 +120,13 @@ def run(tier, seed):
             pid, cons = sstr.symbolic("pool_id_" + tag, L_ID, ALPHA(tag, BECH32), minlen=1)
             stake = z3.Int("stake_" + tag)
             cons = cons + [stake >= 0, stake < U64]
-            o = run_one(I, f_sd, [Agg("adt", "StakeDistributionEntry", (pid, stake))], cons)
+            # the entry is built by the real constructor (a normalisation of the identifier there would be part of the leaf encoding)
+            f_new = prog.find_one(r"cardano_stake_distribution\.rs.*>::new$", param_regex=r"-> (\w+::)*StakeDistributionEntry")
+            o0 = run_one(I, f_new, [pid, stake], cons)
+            outs_ = [x for x in I.call_fn(f_sd, [o0.value], o0.state) if x.kind == "return"]
+            if len(outs_) != 1:
+                raise Unencodable("stake leaf: %d returning paths" % len(outs_))
+            o = outs_[0]
             sides.append((pid, stake, leaf_of(o.value), list(o.pc)))
         (pa, sa, la, ca), (pb, sb_, lb, cb) = sides
         ob = rep.add(core.Obligation("c11_stake_leaf_injective", "smt", "equal stake-distribution leaves => equal (pool id, stake)", {"id_len": L_ID}))
@@ -337,6 +343,26 @@ def run(tier, seed):
                     res = [l for l in native_query([q]) if l in ("equal", "different")]
                     native = {"query": q, "leaves": res[0]}
                     reproduced = res[0] == "equal" and fa != fb
+                except Exception as e:
+                    native = {"error": str(e)}
+            else:
+                try:
+                    import json
+                    from checks.c17 import native_query
+                    fa, fb = ob.counterexample["fields_a"], ob.counterexample["fields_b"]
+
+                    def ordered(kind, fl):
+                        if level != "item":
+                            return fl
+                        db2 = symval.TypeDB([os.path.join(core.REPO, "mithril-common", "src")])
+                        names = [n_ for n_, t_ in db2.struct_fields("CardanoBlock" if kind == "Block" else "CardanoTransaction")]
+                        d_ = dict(zip(names, fl))
+                        order = ["block_hash", "block_number", "slot_number"] if kind == "Block" else ["transaction_hash", "block_hash", "block_number", "slot_number"]
+                        return [d_[n_] for n_ in order]
+                    spec = {"level": level, "a": {"kind": "block" if ka == "Block" else "tx", "fields": ordered(ka, fa)}, "b": {"kind": "block" if kb == "Block" else "tx", "fields": ordered(kb, fb)}}
+                    res = [l for l in native_query(["leaf_eqx " + json.dumps(spec).encode().hex()]) if l in ("equal", "different")]
+                    native = {"query": spec, "leaves": res[0]}
+                    reproduced = res[0] == "equal"
                 except Exception as e:
                     native = {"error": str(e)}
         ob.role = role
